@@ -276,6 +276,10 @@ def gen_sequences(rnd, tier):
             content = ''
             kw.update(rnd.choice([dict(version=1), dict(symbol_count=1), dict(symbol_count=2)]))
         yield SeqCase(content, kw, 'malformed')
+    # falsy but valid messages: the integer 0, '0', b'0', a single space
+    for content in (0, '0', b'0', ' ', 7, '00'):
+        for kw in (dict(version=1), dict(symbol_count=1), dict(version=2, symbol_count=1), dict(symbol_count=2)):
+            yield SeqCase(content, dict(kw), 'falsy-content')
 
 
 def _seq_call(content, kw):
